@@ -415,6 +415,35 @@ def wiring(F, R):
         R.ob('C12.wiring', '%s|middleware-constructed' % ver, found, 'InFlightServiceImpl::new not found in %s::default' % ver)
 
 
+def client_wiring(F, R):
+    """The client dispatchers are built by create_dispatcher(..): the parameter that becomes the in-flight limit (v3: first
+    argument of InFlightService::new; v5: the max_receive field of Dispatcher) receives `max_receive` of the connection at
+    every call site - not a neighbouring same-typed setting (an argument swap between two usize parameters type-checks)."""
+    n = 0
+    for ver in ('v3', 'v5'):
+        cb = F.one(r'^%s::client::dispatcher::create_dispatcher$' % ver)
+        idx = set()
+        if ver == 'v3':
+            for bi, t in cb.calls_to(r'InFlightService::<S>::new$|InFlightService<.*>::new$|::InFlightService::new$'):
+                idx |= {l[1] for l in Origin(cb).of_operand(t['args'][0]) if l[0] == 'arg'}
+        else:
+            for bi, j, st in agg_sites(cb, r'^v5::client::dispatcher::Dispatcher$'):
+                names = st['rv'].get('names') or []
+                if 'max_receive' in names:
+                    idx |= {l[1] for l in Origin(cb).of_operand(st['rv']['fields'][names.index('max_receive')]) if l[0] == 'arg'}
+        R.ob('C12.wiring', '%s-client|create_dispatcher|limit-parameter-found' % ver, len(idx) == 1, 'parameters reaching the in-flight limit: %s' % sorted(idx), cb.loc(0))
+        if len(idx) != 1:
+            continue
+        pi = idx.pop() - 1
+        for b in F.find(r'^(<)?%s::client::' % ver):
+            for bi, t in b.calls_to(r'^%s::client::dispatcher::create_dispatcher$' % ver):
+                n += 1
+                ap = apath(b, t['args'][pi]) if pi < len(t['args']) else None
+                R.ob('C12.wiring', '%s-client|%s|create_dispatcher(limit <- max_receive)' % (ver, re.sub(r'(::\{(closure|inl)#\d+\})+$', '', b.path)), ap is not None and ap[-1] == 'max_receive',
+                     'the in-flight limit of the client dispatcher is built from %s, not from the configured max_receive' % apath_str(ap), b.loc(bi))
+    R.floor('C12.wiring', 'client create_dispatcher call sites', n, 6)
+
+
 def counted_set_shrinks(F, R):
     """The set compared with Receive Maximum must lose an id on every final acknowledgement (imports the
     C11.release rule for the v5 dispatchers): otherwise a peer within its Receive Maximum is refused."""
@@ -447,4 +476,5 @@ def run(F, R):
     gate(F, R)
     recvmax(F, R)
     wiring(F, R)
+    client_wiring(F, R)
     R.assume('lemma domain 0..4 per symbol: every atom of the extracted expressions is a difference constraint with constants <= 1, so all orderings are covered')
